@@ -1002,6 +1002,8 @@ pub fn run(ctx: &mut Ctx) {
     ctx.run_prop("compositions", n, strategy, oracle);
     ctx.run_prop("wrappers", nw, wrap_strategy, wrapper_oracle);
     static_error_chains(ctx);
+    // coverage-guided search over the same strategies and oracles (thorough tier; see ptfuzz.rs)
+    crate::ptfuzz::thorough(ctx, &[("c14c", 12, 1_000_000), ("c14w", 4, 1_000_000)]);
 }
 
 pub fn replay(ctx: &mut Ctx, sub: &str, case: &Value) {
